@@ -275,7 +275,7 @@ def load_known():
 def finding_matches(finding, args):
     """Does a z3-kind violation (dict of named values) fall in a listed class?"""
     try:
-        return bool(eval(finding["class"], {"__builtins__": __builtins__}, dict(args)))
+        return bool(eval(finding["class"], {"__builtins__": __builtins__, "re": re}, dict(args)))
     except Exception:
         return False
 
@@ -369,7 +369,7 @@ def main(argv=None):
         ob = t.ob
         if t.mode == "witness":
             if r["verdict"] == "known_reproduced":
-                known_lines.append("KNOWN-FINDING: property=%s %s [%s] %s" % (prop, t.finding["id"], t.name, t.finding["what"]))
+                known_lines.append("KNOWN-FINDING: property=%s %s %s" % (prop, t.finding["id"], t.finding["what"]))
             continue
         if t.mode == "reach":
             if r["verdict"] not in ("reached",):
@@ -445,7 +445,7 @@ def main(argv=None):
                     if hit is not None:
                         if hit["id"] not in seen_known:
                             seen_known.add(hit["id"])
-                            known_lines.append("KNOWN-FINDING: property=%s %s [%s] %s" % (prop, hit["id"], t.name, hit["what"]))
+                            known_lines.append("KNOWN-FINDING: property=%s %s %s" % (prop, hit["id"], hit["what"]))
                         continue
                     rec = {"property": prop, "tier": tier_name, "src": t.src, "fn": ob.fn, "param": t.param, "args": viol.get("args"), "kind": "z3",
                            "harness": hname, "what": viol.get("what")}
@@ -467,7 +467,12 @@ def main(argv=None):
             harness_errors.append("%s: %s %s" % (t.name, v, (r.get("detail") or r.get("message") or "")[:600]))
 
     wall = time.time() - t0
+    seen_ids = set()
     for line in sorted(set(known_lines)):
+        fid = line.split()[2]
+        if fid in seen_ids:  # one line per listed finding, whichever obligations reproduced it
+            continue
+        seen_ids.add(fid)
         print(line)
     for name, path, what in violations:
         print("VIOLATION property=%s replay=%s" % (prop, path))
